@@ -88,3 +88,12 @@ Theorem C09_restart_reader_unaffected : forall F v rc s fp rest cs c cands,
   read_pass (w_fs (rs_w (wrun_on s F v rc))) cands = read_pass s cands.
 Proof. exact restart_reader_unaffected. Qed.
 Print Assumptions C09_restart_reader_unaffected.
+
+(* ---- T17: the sources this property rests on keep no state outside the objects the model has (no static locals
+   or mutable globals in C, no class-level / module-level containers, `global` rebinding or cache decorators in
+   Python): the list of such sites, regenerated from the sources on every run, is empty *)
+From Coq Require Import String List.
+From DRF Require Import Gen.StateSites Proofs.StateSitesProofs.
+Theorem C09_no_state_outside_the_modelled_objects : state_sites_c_library = @nil string /\ state_sites_extension = @nil string /\ state_sites_rf_python = @nil string /\ state_sites_listing = @nil string.
+Proof. repeat split; first [exact no_state_outside_objects_c_library | exact no_state_outside_objects_extension | exact no_state_outside_objects_rf_python | exact no_state_outside_objects_listing]. Qed.
+Print Assumptions C09_no_state_outside_the_modelled_objects.
